@@ -911,6 +911,13 @@ func (p *PolicyManager) SyncPodChains(pod *corev1.Pod) error {
 		return fmt.Errorf("failed to execute iptables-restore for ruls %s: %v", string(lines), err)
 	}
 
+	// the pod's ip may have changed, remove the rules jumping to its chain for any other address
+	if err := p.deletePodRuleByKeyword(pod, ingressChain, string(podChain), " "+pod.Status.PodIP+"/32 "); err != nil {
+		glog.Warning(err)
+	}
+	if err := p.deletePodRuleByKeyword(pod, egressChain, string(podChain), " "+pod.Status.PodIP+"/32 "); err != nil {
+		glog.Warning(err)
+	}
 	args := []string{"-d", pod.Status.PodIP, "-m", "comment", "--comment", podNameComment, "-j", string(podChain)}
 	if filteredIngressPolicy.Len() > 0 {
 		// -A GLX-INGRESS -d x.x.x.x -j GLX-POD-XXXXX , this should be added after creating pod chain
@@ -1005,10 +1012,10 @@ func (p *PolicyManager) ensureBasicChain() error {
 func (p *PolicyManager) deletePodChains(pod *corev1.Pod) error {
 	podChain := utiliptables.Chain(podChainName(pod))
 	// we don't know pod ip, so delete pod rules in GLX-INGRESS/GLX-EGRESS by keyword
-	if err := p.deletePodRuleByKeyword(pod, ingressChain, string(podChain)); err != nil {
+	if err := p.deletePodRuleByKeyword(pod, ingressChain, string(podChain), ""); err != nil {
 		glog.Warning(err)
 	}
-	if err := p.deletePodRuleByKeyword(pod, egressChain, string(podChain)); err != nil {
+	if err := p.deletePodRuleByKeyword(pod, egressChain, string(podChain), ""); err != nil {
 		glog.Warning(err)
 	}
 	// flush and delete pod chain
@@ -1024,8 +1031,8 @@ func (p *PolicyManager) deletePodChains(pod *corev1.Pod) error {
 	return nil
 }
 
-// deletePodRuleByKeyword delete rules in chain by keyword
-func (p *PolicyManager) deletePodRuleByKeyword(pod *corev1.Pod, chain utiliptables.Chain, keyword string) error {
+// deletePodRuleByKeyword delete rules in chain by keyword, except those containing except (if not empty)
+func (p *PolicyManager) deletePodRuleByKeyword(pod *corev1.Pod, chain utiliptables.Chain, keyword, except string) error {
 	lines, err := p.iptableHandle.ListRule(utiliptables.TableFilter, chain)
 	if err != nil {
 		if !strings.Contains(err.Error(), chainNotExistErr) {
@@ -1033,34 +1040,35 @@ func (p *PolicyManager) deletePodRuleByKeyword(pod *corev1.Pod, chain utiliptabl
 		}
 		return nil
 	}
-	var podLine string
+	found := false
 	for i := range lines {
 		// -A GLX-INGRESS -d x.x.x.x -j GLX-POD-XXXXX
 		// -A GLX-EGRESS -s x.x.x.x -j GLX-POD-XXXXX
-		if strings.Contains(lines[i], keyword) {
-			podLine = lines[i]
-			break
+		// there may be several of them if the pod's ip changed
+		if !strings.Contains(lines[i], keyword) || strings.Contains(lines[i], except) && except != "" {
+			continue
 		}
-	}
-	if podLine == "" {
-		glog.V(5).Infof("find no pod %s_%s keyword %s rule line in %s", pod.Name, pod.Namespace, keyword, string(chain))
-	} else {
+		found = true
+		podLine := lines[i]
 		glog.V(5).Infof("find pod %s_%s keyword %s rule line in %s: %s", pod.Name, pod.Namespace, keyword,
 			string(chain), podLine)
 		parts := strings.Split(podLine, " ")
 		if len(parts) < 3 {
 			glog.Warningf("unexpected pod %s_%s keyword %s rule line in %s: %s", pod.Name, pod.Namespace, keyword,
 				string(chain), podLine)
-		} else {
-			for i := range parts {
-				// trim comment double quotes
-				parts[i] = strings.Trim(parts[i], `"`)
-			}
-			if err := p.iptableHandle.DeleteRule(utiliptables.TableFilter, chain, parts[2:]...); err != nil {
-				glog.Warningf("failed to delete pod %s_%s keyword %s rule line in %s: %v", pod.Name, pod.Namespace,
-					keyword, string(chain), err)
-			}
+			continue
 		}
+		for i := range parts {
+			// trim comment double quotes
+			parts[i] = strings.Trim(parts[i], `"`)
+		}
+		if err := p.iptableHandle.DeleteRule(utiliptables.TableFilter, chain, parts[2:]...); err != nil {
+			glog.Warningf("failed to delete pod %s_%s keyword %s rule line in %s: %v", pod.Name, pod.Namespace,
+				keyword, string(chain), err)
+		}
+	}
+	if !found {
+		glog.V(5).Infof("find no pod %s_%s keyword %s rule line in %s", pod.Name, pod.Namespace, keyword, string(chain))
 	}
 	return nil
 }
